@@ -7,11 +7,15 @@ package c15
 // by the harness-installed handlers and (b) every datagram that comes back on the sender
 // socket, and judges both against the independent RFC 5176 oracle of oracle_test.go.
 //
-// Settling without a clock: after each datagram d an authentic probe request ("fence") is
-// sent from the same socket. The listener is a sequential loop and loopback UDP is FIFO, so
-// once the fence's reply has arrived everything d caused has happened. Only if the fence is
-// not answered (which correct code never does) is the listener asked, over the control
-// pipe, to report quiescence (socket queue empty, receiveLoop parked in its read).
+// Settling: after each datagram d an authentic probe request ("fence") is sent from the same
+// socket. On a listener that handles one datagram at a time, loopback UDP being FIFO, everything
+// d caused has happened once the fence's reply has arrived. Nothing here relies on that being
+// the listener's threading: after the probes' replies the listener process is asked over the
+// control pipe to report quiescence (socket queue empty, no harness handler in flight, a reader
+// parked in its socket read and no other goroutine of package radius active - child_test.go),
+// and only then are the datagrams that came back and the handler events collected. Probe replies
+// are matched by identifier, in whatever order they arrive. Every wait is bounded: a case ends
+// held, violated or inconclusive on its own, and a listener that does not settle is replaced.
 
 import (
 	"bufio"
@@ -45,13 +49,23 @@ func TestMain(m *testing.M) {
 		return
 	}
 	run = vk.Start("C15", "exploration")
-	run.Rule("for each of N seeded authentic CoA/Disconnect requests (both codes, 0-12 attributes, own secret of 1-64 octets incl. non-ASCII/NUL and leading/trailing white space, own listener process; every third listener runs the real CoAProcessor of coa_handler.go as its handler): the request itself; every single-bit flip of its first 64 octets; every single-octet substitution beyond; the length field set to every value 0..len+4 and far values; truncation at every octet; datagrams shorter than 20 octets with a consistent length field; length field shortened and re-signed (authentic prefix + unauthenticated tail); padding beyond L incl. forged attributes and >4096 octets; the request signed with 13+ other secrets (prefixes, extensions, one-bit neighbours, empty); classic wrong authenticators; authentic packets with 16 other codes; authentic requests with broken attribute regions; 40 random datagrams. Every datagram goes over loopback UDP to the real listener started by CoAServer.Start. non-trivial = distinct (secret, datagram) that passes the size checks (len >= 20 and 20 <= L <= len), so that whether it is acted on is decided by the MD5 comparison or later")
-	run.Assume("the listener handles datagrams one at a time in arrival order (true of receiveLoop); a datagram for which sendto(2) on loopback has returned is in the listener's socket queue")
+	run.Rule("for each of N seeded authentic CoA/Disconnect requests (both codes, 0-12 attributes, own secret of 1-64 octets incl. non-ASCII/NUL and leading/trailing white space, own listener process; every third listener runs the real CoAProcessor of coa_handler.go as its handler): the request itself; every single-bit flip of its first 64 octets; every single-octet substitution beyond; the length field set to every value 0..len+4 and far values; truncation at every octet; datagrams shorter than 20 octets with a consistent length field; length field shortened and re-signed (authentic prefix + unauthenticated tail); padding beyond L incl. forged attributes and >4096 octets; the request signed with 13+ other secrets (prefixes, extensions, one-bit neighbours, empty); classic wrong authenticators; authentic packets with 16 other codes; authentic requests with broken attribute regions; 40 random datagrams. Every datagram goes over loopback UDP to the real listener started by CoAServer.Start. non-trivial = distinct (secret, datagram) that passes the size checks (len >= 20 and 20 <= L <= len), so that whether it is acted on is decided by the MD5 comparison or later" + ". ALSO " +
+		"overlap workload (overlap_test.go), per listener process (direct handlers / real CoAProcessor alternating, own secret): episodes X1, X2 where X1 is an authentic request whose session-changing callback (handler, or the processor's policy updater / terminator) is held by the monitor until released and X2 - sent only after the listener process reported X1's callback entered - is each of: junk, a request with a bad authenticator (same or other identifier), a byte-identical replay of X1, the same request under another identifier, an authentic request for another session; both orders; release all at once / first-in-first-out / last-in-first-out; plus bursts of 4-24 back-to-back authentic requests (distinct identifier, token, session) with junk, bad-authenticator requests and one replay interleaved, to callbacks that take 1-3 ms each or are held until the burst is out. An episode counts as an overlap only if the first callback was observed held when the second datagram was sent; what became of the second datagram meanwhile (waiting in the socket queue / consumed) is observed, not assumed")
+	run.Assume("a datagram for which sendto(2) on loopback has returned is in the listener's socket queue; the listener may handle datagrams in any order and on any goroutine: a case is collected only after its probe was answered and the listener process reported quiescence (socket queue empty, no harness handler in flight, a reader of package radius parked in its socket read, no other goroutine of package radius active), all within bounded waits - otherwise the case is inconclusive")
+	run.Assume("a byte-identical copy of an authentic request is itself an authentic datagram: acting on it again and answering it again is accepted, as is suppressing it (between 1 and k handler calls and replies for k copies, each reply verifying against the request); copies are sent only by the overlap workload")
 	run.Assume("octets beyond the RADIUS length field are padding (RFC 2865 s.3); authentic packets with other codes / unparsable attributes may be dropped or NAKed but must not reach a handler; zero-length attribute values and a single stray trailing octet are accepted either way; authentic packets with L > 4096 are not required to be acted on")
-	run.Assume("exact duplicates of an authentic request are never sent (a duplicate-suppressing listener would be correct)")
+	run.Assume("the mutation workload never sends an exact duplicate of an authentic request to one listener process (a duplicate-suppressing listener would be correct)")
 	run.Floor("authentic_requests_acted_on", 100)
 	run.Floor("inauthentic_reaching_md5_comparison_silent", 5000)
 	run.Floor("responses_verified", 100)
+	for _, k := range ovKinds {
+		run.Floor("overlap_episodes_kind_"+k, 20)
+	}
+	run.Floor("overlap_episodes", 200)
+	run.Floor("burst_episodes", 60)
+	run.Floor("responses_verified_after_overlap", 800)
+	run.Floor("responses_verified_after_overlap_held", 300)
+	run.Floor("responses_verified_after_overlap_burst", 500)
 	code := m.Run()
 	ec := run.Finish()
 	if code != 0 && ec == 0 {
@@ -154,17 +168,73 @@ func (s *srvProc) ask(c string) (*event, bool) {
 	if _, err := io.WriteString(s.in, c+"\n"); err != nil {
 		// fall through: the reader will see EOF
 	}
+	to := time.NewTimer(askWait)
+	defer to.Stop()
 	for {
-		e, ok := <-s.lines
-		if !ok {
-			s.dead = true
-			s.cmd.Wait()
+		select {
+		case e, ok := <-s.lines:
+			if !ok {
+				s.dead = true
+				s.cmd.Wait()
+				return nil, false
+			}
+			if e.Reply == c {
+				return &e, true
+			}
+			s.pending = append(s.pending, e)
+		case <-to.C:
+			// a listener process that does not answer its control pipe is of no further use
+			s.kill()
 			return nil, false
 		}
-		if e.Reply == c {
-			return &e, true
+	}
+}
+
+const askWait = 20 * time.Second
+
+// settled asks the listener process to report quiescence (child_test.go waitQuiescent: up to 3 s each time); on a machine
+// this loaded a second bounded wait is granted before the case is given up as not settled. ok=false: the process is gone.
+func (s *srvProc) settled() (q *quiesce, ok bool) {
+	for i := 0; i < 2; i++ {
+		r, alive := s.ask("S")
+		if !alive {
+			return nil, false
 		}
-		s.pending = append(s.pending, e)
+		q = r.Q
+		if q != nil && q.Quiescent {
+			break
+		}
+	}
+	return q, true
+}
+
+// waitFor waits (bounded) until the listener process has reported an event satisfying pred; everything read stays in pending.
+func (s *srvProc) waitFor(pred func(*event) bool, d time.Duration) bool {
+	for i := range s.pending {
+		if pred(&s.pending[i]) {
+			return true
+		}
+	}
+	if s.dead {
+		return false
+	}
+	to := time.NewTimer(d)
+	defer to.Stop()
+	for {
+		select {
+		case e, ok := <-s.lines:
+			if !ok {
+				s.dead = true
+				s.cmd.Wait()
+				return false
+			}
+			s.pending = append(s.pending, e)
+			if pred(&e) {
+				return true
+			}
+		case <-to.C:
+			return false
+		}
 	}
 }
 
@@ -358,11 +428,10 @@ wait:
 		}
 	}
 	var q *quiesce
-	if !answered && !s.poll() {
-		// slow path: no fence (crash confirmation) or fence unanswered — let the listener report quiescence
-		if r, ok := s.ask("Q"); ok {
-			q = r.Q
-		}
+	if !s.poll() {
+		// whatever the listener's threading: nothing is collected before the listener process reports quiescence
+		// (bounded; see waitQuiescent). With the probe answered by a one-at-a-time listener this returns at once.
+		q, _ = s.settled()
 	}
 	late := w.drain()
 	if answered {
@@ -377,7 +446,6 @@ wait:
 			}
 			got = append(got, p)
 		}
-		s.ask("E")
 	} else {
 		for _, p := range late {
 			if withFence && !answered && f.isReply(p) && len(fo.resps) == 0 {
@@ -397,7 +465,7 @@ wait:
 	}
 	o.evs, o.resps = evs, got
 	switch {
-	case answered:
+	case answered && q != nil && q.Quiescent:
 		o.settled, fo.settled = "fence", "fence"
 		w.count("settled_by_fence_reply", 1)
 	case dead:
@@ -418,9 +486,9 @@ wait:
 			}
 		}
 	default:
-		st := "no reply to Q"
+		st := "no quiescence report"
 		if q != nil {
-			st = fmt.Sprintf("rxq=%d loop=%q", q.RxQ, q.Loop)
+			st = fmt.Sprintf("probe answered=%v but listener not quiescent within the bounded wait: rxq=%d loop=%q readers=%d busy=%d handlers_in_flight=%d", answered, q.RxQ, q.Loop, q.Readers, q.Busy, q.Inflight)
 		}
 		o.settled = "unsettled: " + st
 	}
@@ -436,7 +504,7 @@ func tail(s string, n int) string {
 }
 
 var sampleFam sync.Map
-var sampleFams = map[string]bool{"base": true, "bitflip": true, "prefix-resigned": true, "padded": true, "other-secret": true}
+var sampleFams = map[string]bool{"base": true, "bitflip": true, "prefix-resigned": true} // the other two written-out samples are overlap episodes
 
 // runCase sends one case, settles it, handles listener death, and judges.
 func (w *worker) runCase(tc *tcase) {
@@ -566,6 +634,9 @@ func (w *worker) account(tc *tcase, o, fo *outcome, f *fence) {
 
 const batchSize = 16
 
+// batchWait / fenceWait bound the collection of one batch / episode absolutely / since the last datagram that came back.
+const batchWait = 12 * time.Second
+
 // crashKey: input class, with length fields beyond the listener's 4096-octet buffer kept apart from the rest.
 func crashKey(d, secret []byte) string {
 	c := inputClass(d, secret)
@@ -586,11 +657,13 @@ func (w *worker) skipAfterCrash(tc *tcase) bool {
 	return false
 }
 
-// runBatch pipelines up to batchSize cases: d1 F1 d2 F2 … are sent back to back, and because the listener is
-// sequential and loopback is FIFO, the replies and the handler events come back in the same order, delimited by the
-// fences' replies / handler events. Anything that does not fit that pattern exactly (a fence unanswered, the listener
-// gone, a datagram after the last fence reply, a fence event out of place) sends the whole batch to the one-at-a-time
-// path on a fresh listener, which settles each case on its own.
+// runBatch pipelines up to batchSize cases: d1 F1 d2 F2 … are sent back to back. On a listener that handles one
+// datagram at a time (loopback is FIFO) the replies and the handler events come back in the same order, delimited by
+// the fences' replies / handler events, and each case is attributed what lies between two fences. A listener that
+// answers the probes in another order is not thereby wrong: a batch without any authentic case in which nothing but
+// the probes' effects was observed is still judged (every case silent); any other batch (a fence unanswered, the
+// listener gone or not quiescent, a datagram after quiescence, probes out of order around an authentic case or an
+// unexpected effect) goes to the one-at-a-time path on a fresh listener, which settles each case on its own.
 func (w *worker) runBatch(all []*tcase) {
 	var cs []*tcase
 	for _, tc := range all {
@@ -633,61 +706,116 @@ func (w *worker) runBatch(all []*tcase) {
 	}
 	outs := make([]*outcome, len(cs))
 	fouts := make([]*outcome, len(cs))
+	fidx := map[byte]int{}
 	for i := range cs {
 		outs[i], fouts[i] = &outcome{settled: "fence"}, &outcome{settled: "fence"}
+		fidx[fences[i].d[1]] = i
 	}
-	cur := 0
+	// Probe replies are matched by identifier, in whatever order they come. cur = number of leading probes answered;
+	// a datagram that is not a probe reply is attributed by position (to case cur), which is meaningful only as long as
+	// the replies keep the order of the requests (inOrder).
+	cur, answeredN, others := 0, 0, 0
+	inOrder := true
 	last := time.Now()
-	for sendOK && cur < len(cs) {
+	begun := last
+	for sendOK && answeredN < len(cs) && time.Since(begun) < batchWait {
 		p, ok := w.recv(20 * time.Millisecond)
 		if ok {
-			switch {
-			case fences[cur].isReply(p):
-				fouts[cur].resps = append(fouts[cur].resps, p)
-				cur++
-			case w.strayProbeReply(p, fences[cur]) && !(len(cs[cur].d) >= 2 && p[1] == cs[cur].d[1]):
-				w.reportStray(p)
-			default:
-				outs[cur].resps = append(outs[cur].resps, p)
-			}
 			last = time.Now()
+			i, isF := -1, false
+			if len(p) >= 20 {
+				i, isF = fidx[p[1]]
+			}
+			switch {
+			case isF && fences[i].isReply(p):
+				if len(fouts[i].resps) == 0 {
+					answeredN++
+				}
+				fouts[i].resps = append(fouts[i].resps, p) // a second reply to one probe is judged with the probe (several-responses)
+				if i != cur {
+					inOrder = false
+				}
+				for cur < len(cs) && len(fouts[cur].resps) > 0 {
+					cur++
+				}
+			case len(p) >= 20 && w.strayProbeReply(p, nil) && !batchHasID(cs, p[1]):
+				w.reportStray(p) // answers a probe of an earlier, settled batch
+			default:
+				k := cur
+				if k >= len(cs) {
+					k = len(cs) - 1
+				}
+				outs[k].resps = append(outs[k].resps, p)
+				others++
+			}
 			continue
 		}
 		if s.poll() || time.Since(last) > fenceWait {
 			break
 		}
 	}
-	good := sendOK && cur == len(cs)
+	good := sendOK && answeredN == len(cs)
+	why := "probe-unanswered-or-listener-gone"
+	if good {
+		// every probe answered; now let the listener process report quiescence before anything is concluded
+		q, ok := s.settled()
+		good = ok && q != nil && q.Quiescent
+		if !good {
+			why = "listener-not-quiescent-within-bounded-wait"
+		}
+	}
 	if good {
 		if late := w.drain(); len(late) > 0 {
 			good = false
+			why = "datagram-after-quiescence"
 		}
 	}
 	if good {
-		if _, ok := s.ask("E"); !ok {
-			good = false
-		}
-	}
-	if good {
-		ei := 0
+		ei := 0 // number of leading probes whose handler event has been seen
 		for _, e := range s.take() {
 			if idx, isFence := tokIdx[e.User]; isFence {
-				if ei < len(cs) && idx == ei && (e.K == "coa" || e.K == "disc") && len(fouts[ei].evs) == 0 {
-					fouts[ei].evs = append(fouts[ei].evs, e)
-					ei++
+				if (e.K == "coa" || e.K == "disc") && len(fouts[idx].evs) == 0 {
+					fouts[idx].evs = append(fouts[idx].evs, e)
+					if idx != ei {
+						inOrder = false
+					}
+					for ei < len(cs) && len(fouts[ei].evs) > 0 {
+						ei++
+					}
 					continue
 				}
 				good = false
+				why = "probe-event-twice-or-of-wrong-kind"
 				break
 			}
 			if ei >= len(cs) {
 				good = false
+				why = "event-after-last-probe"
 				break
 			}
 			outs[ei].evs = append(outs[ei].evs, e)
+			others++
 		}
-		if ei != len(cs) {
+		if good && ei != len(cs) {
 			good = false
+			why = "probe-event-missing"
+		}
+	}
+	if good && !inOrder {
+		// The listener answered the probes out of order: it handles datagrams concurrently, and position attributes
+		// nothing. If no case of the batch is authentic and nothing but the probes' replies and handler events was
+		// observed, every case was dropped without effect and is judged so; otherwise each case is settled on its own.
+		w.count("batches_probes_answered_out_of_order", 1)
+		good = others == 0
+		for _, tc := range cs {
+			if a, _ := refAuthentic(tc.d, w.secret); a {
+				good = false
+			}
+		}
+		if good {
+			w.count("batches_settled_without_order", 1)
+		} else {
+			why = "out-of-order-around-authentic-case-or-extra-effect"
 		}
 	}
 	if good {
@@ -701,6 +829,7 @@ func (w *worker) runBatch(all []*tcase) {
 		return
 	}
 	w.count("batches_rerun_one_at_a_time", 1)
+	w.count("batches_rerun_because_"+why, 1)
 	if !w.respawn() {
 		w.stopped = true
 		return
@@ -711,6 +840,15 @@ func (w *worker) runBatch(all []*tcase) {
 		}
 		w.runCase(tc)
 	}
+}
+
+func batchHasID(cs []*tcase, id byte) bool {
+	for _, tc := range cs {
+		if len(tc.d) >= 2 && tc.d[1] == id {
+			return true
+		}
+	}
+	return false
 }
 
 func safeRA(d []byte) []byte {
